@@ -38,6 +38,8 @@ var Tokens = []string{
 	"/a\\\\/", "#c /", "/voil\xc3\xa0", "\xc3\x85", "\x0b", "\xa0",
 	// directive prefixes that expect a body on the next line
 	"TYPE @r regex\n", "TYPE @j\n", "ENUM @e\n", "200 regex\n", "Description\n",
+	// the ends of the response-code range, annotations closed by several asterisks, an enum body with a comment on its line, a TAB
+	"599", "100", "/*a**/", "/**a*/", "[1] #c", "\t",
 }
 
 // Joiners used between tokens.
